@@ -451,10 +451,10 @@ func connerrScenario(s *Sim, params map[string]string) {
 
 func init() { Scenarios["stallclose"] = stallcloseScenario }
 
-var scFirstOps = []int{1, 11, 99, 4, 5, 0, 3, 98} // (98: a fetch limited to a few bytes, answered late)
+var scFirstOps = []int{1, 11, 99, 4, 5, 0, 3, 98, 97} // (98: a fetch limited to a few bytes, answered late; 97: WriteMessages refused with an error code)
 // ReadBatch, short-buffer read, ReadBatch closed unread, ReadOffset, ReadPartitions, WriteMessages, ReadLastOffset
 
-const scSplits = 4 // where the stall begins: inside the 8-byte frame header, early, in the middle, before the last byte
+const scSplits = 5 // where the stall begins: inside the 8-byte frame header, early, in the middle, before the last byte, before the last field
 
 func StallCloseCases() int { return ceCfgs * len(scFirstOps) * scSplits * 2 * ceFollow }
 
@@ -494,6 +494,7 @@ func stallcloseScenario(s *Sim, params map[string]string) {
 			Records: []rc.Record{{Offset: off, Timestamp: base + 10*off, Value: []byte(fmt.Sprintf("ce/%d|", off))}}}, 1)
 	}
 	env := &ceEnv{s: s, cl: cl, p: p, topic: "ce"}
+	armed, fired := false, false
 	firstName := "ReadBatch closed unread"
 	api := int16(1)
 	if first == 98 {
@@ -508,18 +509,28 @@ func stallcloseScenario(s *Sim, params map[string]string) {
 		if magic < 2 {
 			cl.ForceRecordSetLimit = 20
 		}
+	} else if first == 97 {
+		// the broker refuses the batch (a Kafka error: the connection is kept
+		// if the response is consumed whole) and the network stalls inside
+		// that response
+		firstName, api = "WriteMessages answered with NotEnoughReplicas", 0
+		cl.ProduceErr = func(r *Req, topic string, part int32) (int16, bool) {
+			if armed {
+				return 19, false
+			}
+			return ErrNone, false
+		}
 	} else if first != 99 {
 		firstName, api = ceOpNames[first], ceOpAPI[first]
 	}
 	desc := fmt.Sprintf("case %d: %s (produce<=v%d fetch<=v%d metadata<=v%d); its response stalls for 3s %s, the connection's deadline is 1s; then %s", idx, firstName,
-		b.Versions[0][1], b.Versions[1][1], b.Versions[3][1], []string{"inside the frame header", "after 12 bytes", "half-way", "before its last byte"}[split], ceOpNames[follow])
+		b.Versions[0][1], b.Versions[1][1], b.Versions[3][1], []string{"inside the frame header", "after 12 bytes", "half-way", "before its last byte", "before its last 4 bytes"}[split], ceOpNames[follow])
 	if first == 98 {
 		desc = fmt.Sprintf("case %d: %s (produce<=v%d fetch<=v%d metadata<=v%d): the response arrives 1.7s into a 2s deadline; then %s", idx, firstName, b.Versions[0][1], b.Versions[1][1], b.Versions[3][1], ceOpNames[follow])
 	}
 	if two {
 		desc += " and, from a second goroutine, Brokers"
 	}
-	armed, fired := false, false
 	cl.MutateFrame = func(r *Req, frame []byte) []byte {
 		if armed && !fired && r.Hdr.APIKey == api {
 			fired = true
@@ -538,7 +549,7 @@ func stallcloseScenario(s *Sim, params map[string]string) {
 	}
 	cl.F.SplitMin, cl.F.SplitMax = 3*time.Second, 3*time.Second
 	cl.SplitAt = func(r *Req, n int) int {
-		k := []int{5, 12, n / 2, n - 1}[split]
+		k := []int{5, 12, n / 2, n - 1, n - 4}[split]
 		if k >= n {
 			k = n - 1
 		}
@@ -599,6 +610,8 @@ func stallcloseScenario(s *Sim, params map[string]string) {
 		} else if first == 99 {
 			bt := conn.ReadBatch(1, 1<<20)
 			ra.err = bt.Close()
+		} else if first == 97 {
+			ra.err, ra.wrong = env.doOp(0, "a")
 		} else {
 			ra.err, ra.wrong = env.doOp(first, "a")
 		}
@@ -657,8 +670,8 @@ func stallcloseScenario(s *Sim, params map[string]string) {
 				s.Fail("C11", "R3-wrong-value", "%s: %s: %s", desc, who, r.wrong)
 			case r.took > 6*time.Second+200*time.Millisecond:
 				s.Fail("C11", "R4-hang", "%s: %s returned after %v (deadline 6s)", desc, who, r.took)
-			case first == 98 && follow != 12 && (ra.err == nil || isKafkaErr(ra.err)) && r.err != nil: // (op 12 sets a short read deadline, which rightly hits a concurrent read operation)
-				s.Fail("C11", "R1-conn-unusable-after-kafka-error", "%s: the fetch ended with %v and the connection was kept; %s then failed with %v", desc, ra.err, who, r.err)
+			case (first == 98 || first == 97 && isKafkaErr(ra.err)) && follow != 12 && (ra.err == nil || isKafkaErr(ra.err)) && r.err != nil: // (op 12 sets a short read deadline, which rightly hits a concurrent read operation)
+				s.Fail("C11", "R1-conn-unusable-after-kafka-error", "%s: the first operation ended with %v and the connection was kept; %s then failed with %v", desc, ra.err, who, r.err)
 			case ra.err != nil && !isKafkaErr(ra.err) && !errors.Is(ra.err, io.ErrShortBuffer) && r.err == nil:
 				s.Fail("C11", "R2-conn-reused-after-framing-error", "%s: the first operation failed with %v, yet %s succeeded on that connection", desc, ra.err, who)
 			}
